@@ -30,11 +30,14 @@ import (
 	"os"
 	"sort"
 	"strings"
+	"sync"
 	"testing"
 	"testing/synctest"
+	"time"
 
 	"github.com/emersion/go-message/textproto"
 	"github.com/emersion/go-smtp"
+	"github.com/foxcpp/go-mockdns"
 	"github.com/foxcpp/maddy/framework/buffer"
 	parser "github.com/foxcpp/maddy/framework/cfgparser"
 	"github.com/foxcpp/maddy/framework/config"
@@ -42,6 +45,7 @@ import (
 	"github.com/foxcpp/maddy/framework/log"
 	"github.com/foxcpp/maddy/framework/module"
 	"github.com/foxcpp/maddy/internal/msgpipeline"
+	"github.com/foxcpp/maddy/internal/smtpconn/pool"
 	"github.com/foxcpp/maddy/internal/target/remote"
 	"github.com/foxcpp/maddy/verifharness/scripted"
 	"github.com/foxcpp/maddy/verifharness/vtrace"
@@ -55,6 +59,8 @@ type Cfg struct {
 	Path  string                       `json:"path"`
 	Dmarc string                       `json:"dmarc"`
 	Kind  string                       `json:"kind"`
+	Mod   string                       `json:"mod"`
+	Mfail []string                     `json:"mfail"`
 }
 
 type Call struct {
@@ -142,6 +148,9 @@ func configText(c Cfg, key string) (top, pipe string) {
 		}
 	}
 	for _, t := range []string{"T1", "T2"} {
+		if c.Kind == "rpipe" && t == "T1" {
+			continue // the real remote target, registered by the caller under the same name
+		}
 		fmt.Fprintf(&tb, "target.verif_rec %s_%s {\nid %s\nctl %s\n}\n", key, t, t, key)
 	}
 	in := func(scope string) string {
@@ -162,7 +171,22 @@ func configText(c Cfg, key string) (top, pipe string) {
 	pb.WriteString("source example.org {\n")
 	pb.WriteString(in("S"))
 	for _, b := range []string{"D1", "D2"} {
-		fmt.Fprintf(&pb, "destination %s {\n%sdeliver_to &%s_%s\n}\n", blockDomain[b], in(b), key, blockTarget[b])
+		mod := ""
+		if c.Mod == "on" {
+			// a recipient modifier of the destination block that fails for the listed addresses
+			mod = fmt.Sprintf("modify {\nverif_mod {\nid %s\nctl %s\n", b, key)
+			var fail []string
+			for i, blk := range c.Route {
+				if r := fmt.Sprintf("r%d", i+1); blk == b && has(c.Mfail, r) {
+					fail = append(fail, r+"@"+blockDomain[b])
+				}
+			}
+			if len(fail) > 0 {
+				mod += "fail_rcpt " + strings.Join(fail, " ") + "\n"
+			}
+			mod += "}\n}\n"
+		}
+		fmt.Fprintf(&pb, "destination %s {\n%s%sdeliver_to &%s_%s\n}\n", blockDomain[b], in(b), mod, key, blockTarget[b])
 	}
 	pb.WriteString("default_destination {\nreject\n}\n}\ndefault_source {\nreject\n}\n")
 	return tb.String(), pb.String()
@@ -301,8 +325,16 @@ func cfgEvent(c Cfg) vtrace.Ev {
 	if only == nil {
 		only = []string{}
 	}
+	mfail := c.Mfail
+	if mfail == nil {
+		mfail = []string{}
+	}
+	mod := c.Mod
+	if mod != "on" {
+		mod = "off"
+	}
 	return vtrace.Ev{"place": c.Place, "verd": c.Verd, "only1": only, "route": c.Route,
-		"path": c.Path, "dmarc": c.Dmarc, "kind": c.Kind}
+		"path": c.Path, "dmarc": c.Dmarc, "kind": c.Kind, "mod": mod, "mfail": mfail}
 }
 
 func runPipeline(t *testing.T, b Behaviour, w *bufio.Writer) {
@@ -314,6 +346,12 @@ func runPipeline(t *testing.T, b Behaviour, w *bufio.Writer) {
 		defer scripted.UnbindCheckCtl(key)
 
 		top, pipe := configText(b.Cfg, key)
+		if b.Cfg.Kind == "rpipe" {
+			rw := newRemoteBehind(tr, key+"_T1", "T1")
+			defer rw.close()
+			module.RegisterInstance(rw, nil)
+			module.Initialized[key+"_T1"] = true
+		}
 		if err := registerInstances(top); err != nil {
 			t.Fatalf("behaviour %d: %v\n%s", b.ID, err, top)
 		}
@@ -398,6 +436,219 @@ func runPipeline(t *testing.T, b Behaviour, w *bufio.Writer) {
 		d.ret(fin, "", e)
 		tr.Emit("End", nil)
 	})
+}
+
+// ---------------------------------------------------------------------------
+// kind "rpipe": the real remote.Target behind destination block D1, talking SMTP over
+// in-memory connections to a next hop that accepts everything and counts the messages
+// it was handed. The wrapper only observes: it logs every call with the result class
+// and the quarantine flag and passes everything through.
+
+type miniHop struct {
+	mu   sync.Mutex
+	msgs int
+}
+
+func (h *miniHop) count() int {
+	h.mu.Lock()
+	defer h.mu.Unlock()
+	return h.msgs
+}
+
+func (h *miniHop) dial(ctx context.Context, network, addr string) (net.Conn, error) {
+	c, s := net.Pipe()
+	go h.serve(s)
+	return c, nil
+}
+
+func (h *miniHop) serve(c net.Conn) {
+	defer c.Close()
+	rd := bufio.NewReader(c)
+	wr := func(s string) bool { _, err := c.Write([]byte(s + "\r\n")); return err == nil }
+	if !wr("220 hop.d1.example ESMTP") {
+		return
+	}
+	for {
+		line, err := rd.ReadString('\n')
+		if err != nil {
+			return
+		}
+		verb := strings.ToUpper(strings.TrimRight(line, "\r\n"))
+		if i := strings.IndexByte(verb, ' '); i >= 0 {
+			verb = verb[:i]
+		}
+		switch verb {
+		case "EHLO", "HELO":
+			wr("250-hop.d1.example\r\n250 8BITMIME")
+		case "DATA":
+			if !wr("354 go ahead") {
+				return
+			}
+			for {
+				l, err := rd.ReadString('\n')
+				if err != nil {
+					return
+				}
+				if l == ".\r\n" {
+					break
+				}
+			}
+			h.mu.Lock()
+			h.msgs++
+			h.mu.Unlock()
+			wr("250 2.0.0 accepted")
+		case "QUIT":
+			wr("221 2.0.0 bye")
+			return
+		default: // MAIL, RCPT, RSET, NOOP
+			wr("250 2.0.0 ok")
+		}
+	}
+}
+
+func remoteClass(err error) string {
+	if err == nil {
+		return "ok"
+	}
+	// a refusal by policy (5yz with enhanced code 5.7.z, as for "Refusing to deliver a
+	// quarantined message") - not a failed lookup, connection or transfer
+	var se *exterrors.SMTPError
+	if errors.As(err, &se) && se.Code/100 == 5 && se.EnhancedCode[0] == 5 && se.EnhancedCode[1] == 7 {
+		return "perm"
+	}
+	// the atomic Body of the remote target folds several per-recipient statuses into one error
+	if f, ok := err.(interface{ Fields() map[string]interface{} }); ok {
+		if errs, ok := f.Fields()["errs"].(map[string]error); ok && len(errs) > 0 {
+			for _, e := range errs {
+				if remoteClass(e) != "perm" {
+					return "fail"
+				}
+			}
+			return "perm"
+		}
+	}
+	return "fail"
+}
+
+type remoteBehind struct {
+	name, id string
+	tr       *vtrace.Tracer
+	rt       *remote.Target
+	hop      *miniHop
+}
+
+func newRemoteBehind(tr *vtrace.Tracer, instName, id string) *remoteBehind {
+	hop := &miniHop{}
+	zones := map[string]mockdns.Zone{}
+	for _, d := range blockDomain {
+		zones[d+"."] = mockdns.Zone{MX: []net.MX{{Host: "mx." + d + ".", Pref: 10}}}
+		zones["mx."+d+"."] = mockdns.Zone{A: []string{"127.0.0.1"}}
+	}
+	nolog := log.Logger{Out: log.NopOutput{}}
+	rt := remote.VerifRemoteNewTarget(remote.VerifRemoteConfig{
+		Hostname: "mx.example.org",
+		Resolver: &mockdns.Resolver{Zones: zones},
+		Dialer:   hop.dial,
+		Pool: pool.Config{MaxKeys: 5000, MaxConnsPerKey: 5, MaxConnLifetimeSec: 150,
+			StaleKeyLifetimeSec: 300},
+		ConnReuseLimit:    10,
+		ConnectTimeout:    20 * time.Second,
+		CommandTimeout:    20 * time.Second,
+		SubmissionTimeout: 20 * time.Second,
+		Log:               nolog,
+	})
+	return &remoteBehind{name: instName, id: id, tr: tr, rt: rt, hop: hop}
+}
+
+func (w *remoteBehind) Init(*config.Map) error { return nil }
+func (w *remoteBehind) Name() string           { return "target.remote" }
+func (w *remoteBehind) InstanceName() string   { return w.name }
+func (w *remoteBehind) close()                 { w.rt.Close() }
+
+func (w *remoteBehind) log(op, arg, res string, meta *module.MsgMetadata) {
+	w.tr.Emit("TgtCall", vtrace.Ev{"tgt": w.id, "op": op, "arg": arg, "res": res, "q": meta.Quarantine,
+		"hop": w.hop.count()})
+}
+
+type remoteBehindDelivery struct {
+	w    *remoteBehind
+	meta *module.MsgMetadata
+	d    module.Delivery
+}
+
+func (w *remoteBehind) Start(ctx context.Context, msgMeta *module.MsgMetadata, mailFrom string) (module.Delivery, error) {
+	d, err := w.rt.Start(ctx, msgMeta, mailFrom)
+	w.log("start", "", remoteClass(err), msgMeta)
+	if err != nil {
+		return nil, err
+	}
+	return &remoteBehindDelivery{w: w, meta: msgMeta, d: d}, nil
+}
+
+func (d *remoteBehindDelivery) AddRcpt(ctx context.Context, to string, opts smtp.RcptOptions) error {
+	err := d.d.AddRcpt(ctx, to, opts)
+	d.w.log("rcpt", rcptID(to), remoteClass(err), d.meta)
+	return err
+}
+
+// relayed: whatever was answered, content that reached the next hop was not refused
+func (d *remoteBehindDelivery) bodyRes(before int, res string) string {
+	if d.w.hop.count() > before {
+		return "ok"
+	}
+	return res
+}
+
+func (d *remoteBehindDelivery) Body(ctx context.Context, h textproto.Header, b buffer.Buffer) error {
+	before := d.w.hop.count()
+	err := d.d.Body(ctx, h, b)
+	d.w.log("body", "", d.bodyRes(before, remoteClass(err)), d.meta)
+	return err
+}
+
+type tee struct {
+	mu    sync.Mutex
+	inner module.StatusCollector
+	res   []string
+}
+
+func (t *tee) SetStatus(rcpt string, err error) {
+	t.mu.Lock()
+	t.res = append(t.res, remoteClass(err))
+	t.mu.Unlock()
+	t.inner.SetStatus(rcpt, err)
+}
+
+func (d *remoteBehindDelivery) BodyNonAtomic(ctx context.Context, c module.StatusCollector, h textproto.Header, b buffer.Buffer) {
+	before := d.w.hop.count()
+	t := &tee{inner: c}
+	d.d.(module.PartialDelivery).BodyNonAtomic(ctx, t, h, b)
+	res := "perm" // refused for every recipient
+	for _, r := range t.res {
+		if r == "ok" {
+			res = "ok"
+			break
+		}
+		if r != "perm" {
+			res = "fail"
+		}
+	}
+	if len(t.res) == 0 {
+		res = "fail"
+	}
+	d.w.log("bodyNA", "", d.bodyRes(before, res), d.meta)
+}
+
+func (d *remoteBehindDelivery) Commit(ctx context.Context) error {
+	err := d.d.Commit(ctx)
+	d.w.log("commit", "", remoteClass(err), d.meta)
+	return err
+}
+
+func (d *remoteBehindDelivery) Abort(ctx context.Context) error {
+	err := d.d.Abort(ctx)
+	d.w.log("abort", "", remoteClass(err), d.meta)
+	return err
 }
 
 // runRemote hands the real remote target a message that is already flagged as
